@@ -6,6 +6,8 @@ import json
 import time
 
 import core
+import derived as D
+import members as M
 import treeops as T
 from core import err_class
 
@@ -169,13 +171,15 @@ def _img(r):
     return None if r is None else (r.mode, r.size, T._digest(r.tobytes()))
 
 
-def battery(w):
+def battery(w, pixels=True):
     """the answers a user can get afterwards + the bytes save() writes. The rendering comes first (nothing
     but the history precedes it), is asked again at the end (the same read-only call twice gives the same
-    answer) and the bytes are written twice."""
+    answer) and the bytes are written twice. pixels=False (large canvases): no renderings, everything else."""
     ans = {}
 
     def ask(key, f):
+        if not pixels and key[1] in DOC_PICTURE and not key[1].startswith("saved"):
+            return
         try:
             ans[key] = f()
         except RecursionError:
@@ -310,6 +314,145 @@ def shrink_purity(recipe, observed, sig):
         return list(observed)
 
 
+# fixtures whose layers carry the views the API-built trees cannot have (effects, masks, strokes, vector masks, smart
+# objects); the other files of tests/psd_files are sampled (quick) / all taken (thorough)
+MEMBER_FIXTURES = ["layer_effects.psd", "mask-disabled.psd", "stroke.psd", "layers/curves-with-vectormask.psd",
+                   "placedLayer.psd", "empty-group.psd"]
+MEMBER_FIXTURES_THOROUGH = ["hidden-groups.psd", "clipping-mask2.psd", "effects/stroke-effects.psd", "artboard.psd"]
+
+
+def member_recipes(ctx, rng):
+    """fixture layers of every kind + layers and documents made through the API"""
+    api = [("nest", "RGB", 8), ("board", "RGB", 8), ("two", "RGB", 8, "L"), ("small", "L", 8), ("clips", "CMYK", 8)]
+    fx = list(T.FIXTURES) + MEMBER_FIXTURES
+    if ctx.quick:
+        fx = [f for f in fx if f != "artboard.psd"]        # (a large canvas; the Artboard class is in the `board` tree)
+    else:
+        api += [("hid", "RGB", 8), ("nest", "CMYK", 8), ("nest", "L", 16), ("dup", "RGB", 8), ("flat", "RGB", 32)]
+        fx += MEMBER_FIXTURES_THOROUGH
+    fx = [f for f in fx if (T.FIX / f).exists()]
+    # + a seeded sample of the other fixture files of the checkout (all of them in the thorough tier)
+    rest = sorted(str(p.relative_to(T.FIX)) for p in T.FIX.rglob("*.psd")
+                  if p.stat().st_size <= 300_000)
+    rest = [f for f in rest if f not in fx]
+    rng.shuffle(rest)
+    fx += rest[:2] if ctx.quick else rest[:20]
+    return api + [("fixture", f) for f in dict.fromkeys(fx)]
+
+
+def member_prefix(recipe, rng):
+    """a short history that creates objects through the API (Group.new, PixelLayer.frompil, group_layers) and puts
+    them into the tree: the members are then read on these objects too"""
+    w = T.build(recipe)
+    d = w.docs()[0]
+    ops = [("newgroup", d), ("newlayer", d, (1, 1, 3, 3))]
+    out = []
+    for op in ops:
+        r = T.apply_real(w, op)
+        out.append(op)
+        if op[0] == "newlayer" and r.startswith("id:"):
+            tgt = rng.choice([d] + [g for g in w.groups() if g in T.attached(w)])
+            out.append(("append", tgt, int(r[3:])))
+            T.apply_real(w, out[-1])
+    return out, w
+
+
+def heavy(w, i, path):
+    """renderings of large canvases take seconds each: on those, the pixel members are read on the document and on
+    two layers only (every other member on every object)"""
+    if not any(path.startswith(p) for p in ("composite", "numpy", "topil", "thumbnail", "mask.topil")):
+        return False
+    big = [d for d in w.docs() if w.objs[d].width * w.objs[d].height > 40000]
+    if not big:
+        return False
+    return i not in w.docs()[:1] + w.layers()[:2]
+
+
+def member_sweep(ctx, rng, pairs):
+    traces = []
+    classes = {}
+    exercised = {}
+    new_attrs = set()
+    n_calls = 0
+    for recipe in member_recipes(ctx, rng):
+        try:
+            prefix, w0 = member_prefix(recipe, rng) if recipe[0] != "fixture" or rng.random() < 0.5 else ([], T.build(recipe))
+        except Exception as e:  # noqa
+            ctx.notes.append("members: fixture %r cannot be opened (%s)" % (recipe, err_class(e)))
+            continue
+        calls = []
+        for i in w0.ids():
+            o = w0.objs[i]
+            cls = type(o)
+            if cls.__name__ not in classes:
+                g, z, one, hooks, skipped = M.classify(cls)
+                classes[cls.__name__] = {"property_getters": g, "zero_argument_queries": z,
+                                         "one_argument_queries": [n for n, _ in one], "display_hooks": hooks,
+                                         "not_called_mutators": ["%s (%s)" % x for x in skipped]}
+            for p in M.catalog(w0, o):
+                if heavy(w0, i, p):
+                    continue
+                calls.append(("opaque", "m:" + p, i))
+                exercised.setdefault(cls.__name__, set()).add(T._member_name("m:" + p))
+        cap = 500 if ctx.quick else 3000
+        if len(calls) > cap:
+            # every member of every object itself; of the members of its views (`effects/0.color`, ...) a seeded sample
+            deep = [k for k, c in enumerate(calls) if "." in c[1].split("(")[0]]
+            drop = set(rng.sample(deep, min(len(deep), len(calls) - cap)))
+            calls = [c for k, c in enumerate(calls) if k not in drop]
+        n_calls += len(calls)
+        t = T.run_history(recipe, prefix + calls, check_inv=False, check_shadow=False, stop_on_problem=False)
+        new_attrs |= t.new_attributes
+        traces.append(t)
+        # the unobserved twin: the same world without the calls; later answers and the saved bytes (when they differ
+        # the pair goes through the purity machinery, which shrinks it to the call that matters)
+        twin = T.run_history(recipe, prefix, check_inv=False, check_shadow=False, check_fresh=False,
+                             stop_on_problem=False)
+        small = all(w0.objs[d].width * w0.objs[d].height <= 40000 for d in w0.docs())
+        same = battery(twin.world, small) == battery(t.world, small)
+        ctx.count(("members", recipe), nontrivial=True)
+        ctx.hist("purity", "members %s" % ("same" if same else "differs"))
+        if not same:
+            pairs.append((recipe, prefix, prefix + calls, "members"))
+    ctx.extra["members"] = {"classes": classes, "calls": n_calls,
+                            "exercised": {k: sorted(v) for k, v in sorted(exercised.items())},
+                            "attributes_created_by_reads": sorted("%s.%s by %s" % x for x in new_attrs)[:80]}
+    return traces
+
+
+def report_stale(ctx, stale):
+    """one failure per signature, the history shrunk (ddmin) with the fresh-twin oracle"""
+    seen = {}
+    for recipe, ops, probs, fam in stale:
+        for sig, what, step in probs:
+            ctx.hist("problems_seen", sig)
+            if sig in seen:
+                seen[sig] += 1
+                continue
+            seen[sig] = 1
+            sub = list(ops[:step + 1])
+
+            def test(cand, recipe=recipe, sig=sig):
+                return any(s_ == sig for s_, _, _ in D.run(recipe, list(cand), pixels="auto"))
+            try:
+                small = core.ddmin(sub, test)
+                again = [w_ for s_, w_, _ in D.run(recipe, list(small), pixels="auto") if s_ == sig]
+            except core.Infra:
+                raise
+            except Exception:  # noqa
+                small, again = sub, []
+            if not again:
+                small, again = sub, [what]
+            ctx.fail(sig, again[0], {"recipe": list(recipe), "ops": T.ops_to_json(small), "oracle": "fresh-twin",
+                                     "family": fam},
+                     observed=again[0], expected="every derived value equals the value of the same document written and "
+                     "opened again (computed from the records alone)")
+    for sig, n in seen.items():
+        for f in ctx.failures:
+            if f["signature"] == sig:
+                f["count"] = n
+
+
 def run(ctx: core.Run):
     ctx.prove(["PsdVerif.Props.C14"])
     ctx.trusted_base += T.TRUSTED
@@ -346,6 +489,7 @@ def run(ctx: core.Run):
             traces.append(T.run_history(recipe, seq, check_inv=False, check_shadow=False))
         ctx.hist("exhaustive_histories", "%s depth %d with reads" % (recipe[0], depth), len(hs))
     lap("exhaustive")
+    i_vm = len(traces)
     # 2b. visibility x position: every history of <= 2 operations that hide / show groups and move groups between
     #     containers (inherited visibility: the box of a group depends on its ancestors), every container read (bbox)
     #     before the first and (repr) after every operation - boxes cached under a hidden ancestor included
@@ -362,6 +506,7 @@ def run(ctx: core.Run):
             vm_pairs.append((recipe, h, T.read_everything(w0, h, kinds=("bbox", "repr")), "visibility-move"))
         ctx.hist("exhaustive_histories", "%s visibility x position with reads" % recipe[0], len(hs))
     lap("visibility-move")
+    i_walks = len(traces)
     # 3. random walks with an observe transition at (almost) every step
     recipes = T.walk_recipes()
     n_walks, max_len = (150, 12) if ctx.quick else (1200, 60)
@@ -371,6 +516,48 @@ def run(ctx: core.Run):
         opaque_ok = recipe[0] != "fixture" or recipe[1] in ("clipping-mask.psd", "group.psd")
         traces.append(T.run_history(recipe, interleave(recipe, ops, rng, opaque_ok, per_step=1), check_inv=False))
     lap("walks")
+    # 3b. derived values against a FRESH document (written and opened again: no history behind any value): after
+    #     EVERY edit of histories that end in degenerate states (the last clipping layer released / deleted / moved
+    #     away, the last visible layer hidden, the last child of a group removed, the document emptied, the only mask
+    #     disabled) and at the end of every random walk
+    stale = []        # (recipe, ops, [(sig, what, step)])
+    deg_recipes = [("clips", "RGB", 8), ("nest", "RGB", 8), ("hid", "RGB", 8), ("board", "RGB", 8), ("two", "RGB", 8, "L"),
+                   ("small", "L", 8), ("clips", "L", 16), ("fixture", "mask.psd"), ("fixture", "masks/2.psd")]
+    if not ctx.quick:
+        deg_recipes += [("fixture", "mask-disabled.psd"), ("clips", "CMYK", 8), ("nest", "CMYK", 8), ("dup", "RGB", 8), ("nest", "RGB", 16),
+                        ("fixture", "masks3.psd"), ("fixture", "clipping-mask2.psd"), ("fixture", "group.psd"),
+                        ("fixture", "hidden-groups.psd")]
+    deg_recipes = [r for r in deg_recipes if r[0] != "fixture" or (T.FIX / r[1]).exists()]
+    n_deg = 0
+    i_deg = len(traces)
+    for recipe in deg_recipes:
+        for rep in range(1 if ctx.quick else 2):
+            for fam, ops in D.degenerate_histories(recipe, rng):
+                if recipe[0] == "fixture" and not (fam.startswith("only-mask") or (
+                        fam in ("last-clipping-layer-unclip", "last-clipping-layer-delete") or not ctx.quick)):
+                    continue          # (larger canvases: the families the API-built trees cannot express + two others)
+                n_deg += 1
+                ctx.hist("degenerate_end_states", fam)
+                traces.append(T.run_history(recipe, ops, check_inv=False, check_shadow=False))
+                probs = D.run(recipe, ops, pixels="auto")
+                if probs:
+                    stale.append((recipe, ops, probs, fam))
+    n_walk_end = 0
+    # (the random walks first, then the visibility x position family, then a seeded sample of the exhaustive family)
+    others = traces[i_walks:i_deg] + traces[i_vm:i_walks] + rng.sample(traces[n_corpus:i_vm], min(60, i_vm - n_corpus))
+    for t in others:
+        if not any(o[0] not in ("obs", "opaque") for o in t.ops):
+            continue
+        if n_walk_end >= (180 if ctx.quick else 900):
+            break
+        plain = [o for o in t.ops if o[0] not in ("obs", "opaque")]
+        n_walk_end += 1
+        probs = D.run(t.world.recipe, plain, pixels="auto", every=False)
+        if probs:
+            stale.append((t.world.recipe, plain, probs, "end-of-history"))
+    ctx.extra["fresh_twin_comparisons"] = {"degenerate_histories": n_deg, "ends_of_other_histories": n_walk_end}
+    report_stale(ctx, stale)
+    lap("fresh-twin")
     T.compare_with_model(ctx, traces, what="C14")
     lap("model")
     T.coverage(ctx, traces)
@@ -405,6 +592,14 @@ def run(ctx: core.Run):
         ops = guarded(recipe, T.random_walk(recipe, rng, rng.randrange(2, (10 if ctx.quick else 30)),
                                             p_unguarded=0.0, p_attr=0.35))
         pairs.append((recipe, ops, interleave(recipe, ops, rng, True), "random"))
+    # (c) EVERY public read-only member of every object, enumerated by reflection from the live classes (harness/
+    #     members.py): each call made twice (same answer), what is stored compared before / after each call, and the
+    #     whole sweep compared with an unobserved twin (later answers, saved bytes)
+    member_traces = member_sweep(ctx, rng, pairs)
+    T.compare_with_model(ctx, member_traces, what="C14 members")
+    T.coverage(ctx, member_traces)
+    T.report(ctx, member_traces, props=("C14",))
+    lap("members")
     seen = {}
     for recipe, plain, observed, how in pairs:
         probs = purity_problems(recipe, plain, observed)
@@ -451,7 +646,19 @@ def run(ctx: core.Run):
                 "with and without reads; random interleavings) run with and without the read-only calls, later answers "
                 "(composite first and again at the end, bbox, size, is_visible, descendants, find / findall of every name in use "
                 "and an absent one from EVERY container, clip_layers, filtered composite of the document and of every group, "
-                "default composite, topil) and the bytes written by save() (twice) compared." % (n_walks, max_len, len(pairs)))
+                "default composite, topil) and the bytes written by save() (twice) compared. Reflective sweep: on %d trees "
+                "(API-built and fixtures of every layer kind) every public read-only member of every object and of the views "
+                "it returns (%d calls; enumerated from the live classes, see coverage.members) is called twice, what is stored "
+                "(record fields, tagged-block keys and bytes, channel planes, non-cache attributes, document sections) compared "
+                "before / after each call and the swept world compared with an unobserved twin. Fresh-twin oracle: after every "
+                "edit of %d histories ending in degenerate states (last clipping layer released / deleted / moved away / removed, "
+                "last visible layer hidden, last child of a group / last layer of the document removed, only mask disabled) and "
+                "at the end of %d other histories every derived value (clipping relation from the private attributes first, "
+                "boxes, sizes, inherited visibility, descendants, rendering of every layer and of the document, the merged image "
+                "save() writes) is compared with the same document written and opened again."
+                % (n_walks, max_len, len(pairs), len(member_traces), ctx.extra["members"]["calls"],
+                   ctx.extra["fresh_twin_comparisons"]["degenerate_histories"],
+                   ctx.extra["fresh_twin_comparisons"]["ends_of_other_histories"]))
     ctx.notes += NOTES
     if ctx.tier == "thorough":
         ctx.recheck(["PsdVerif.Props.C14"])
@@ -459,14 +666,32 @@ def run(ctx: core.Run):
 
 NOTES = [
     "proved (Props/C14.lean): fresh_init, fresh_step (every operation; guard of the inserting operations; recursion limit "
-    "not hit), fresh_history, answers_fresh_history, observe_pure, observe_keeps_fresh, answers_fresh, later_answers_same; "
+    "not hit), fresh_history, answers_fresh_history, observe_pure (SameObs now includes the tagged-block key list of every "
+    "record), observe_keeps_blocks, observations_pure (any sequence of read-only calls), getter_writes_nothing, "
+    "observe_keeps_fresh, answers_fresh, later_answers_same; degenerate end states: nothing_visible_group_answer, "
+    "nothing_visible_document_answer, emptied_group_never_stale (after ANY guarded history), witnesses "
+    "last_child_removed_refreshed, last_visible_hidden_refreshed, emptied_document_refreshed; "
     "snapshot counterexamples: legacy_append_after_read_stale, legacy_document_bbox_stale, "
     "legacy_hidden_group_below_stale; known finding proved on a witness: detached_stale_parent_witness",
     "Fresh speaks about containers that are in a document; for detached containers with a stale parent pointer the "
     "statement is false (detached_stale_parent_witness, known finding C14/bbox-stale/detached-node-with-stale-parent)",
     "stated in DESIGN, not proved: 'saved bytes unchanged by observations' (observable of DESIGN includes the bytes "
-    "save() writes; proved: nothing but caches changes, and caches stay fresh; the bytes are compared by the harness); "
-    "lazily created mask / vector mask / origination / effects views and ShapeLayer._bbox are not modelled",
+    "save() writes; proved: nothing but caches changes - lists, pointers, flags, rectangles, dirty flags and WHICH tagged "
+    "blocks every record carries are what they were -, and caches stay fresh; what the blocks contain and the bytes are "
+    "compared by the harness: records, block bytes, channel planes and non-cache attributes before / after every "
+    "read-only call, saved bytes against an unobserved twin); lazily created mask / vector mask / origination / effects "
+    "/ smart-object views and ShapeLayer._bbox are not modelled",
+    "the set of read-only members is not a list in this file: harness/members.py enumerates, from the classes of the "
+    "objects at hand, every public property, every public zero-argument method whose return annotation is neither None "
+    "nor Self and whose name is not a MutableSequence mutator, the Sequence protocol methods, one-argument queries with "
+    "arguments chosen from the parameter annotation, __repr__ / _repr_pretty_, and the same members of the view objects "
+    "they return (two levels); evidence coverage.members lists per class what was called and what was classified as a "
+    "mutator. Attributes that a read-only call creates are treated as caches (listed in the evidence) - what they may "
+    "not do is change a later answer, anything stored, or the saved bytes",
+    "the clipping relation (clip_layers / _has_clip_target) is not part of the C14 model (C15: Model/ClipState.lean); "
+    "here it is a derived value like the others for the fresh-twin oracle: after every edit of the histories that end in "
+    "degenerate states, and at the end of the other histories, every derived value is compared with the same document "
+    "written and opened again",
     "memoised answers the model does not know (a name index, a per-filter group box, ...) are caught only by the search: "
     "purity pairs (with / without the read-only call before an edit), the same call repeated, find compared with a walk of "
     "the lists; the model's caches are the _bbox fields only",
@@ -488,6 +713,9 @@ def _short(v):
 def replay(ctx, data):
     T.replay_print(data)
     inp = data.get("input") or {}
+    if inp.get("oracle") == "fresh-twin":
+        for sig, what, step in D.run(tuple(inp["recipe"]), T.ops_from_json(inp["ops"]), pixels="auto"):
+            print("  step", step, sig, ":", what[:400])
     if "with_observations" in inp:
         recipe = tuple(inp["recipe"])
         for sig, what in purity_problems(recipe, T.ops_from_json(inp["ops"]), T.ops_from_json(inp["with_observations"])):
